@@ -1034,6 +1034,8 @@ fn parse_number(
     };
     match chars.parse::<f64>() {
         Err(_) => Err("Failed to parse to double".to_string()),
+        // "1e999" parses to infinity
+        Ok(v) if !v.is_finite() => Err("Number out of range".to_string()),
         Ok(v) => Ok((
             sign * v,
             NumberOptions {
